@@ -368,11 +368,13 @@ fn make_etag(
         return None;
     }
 
+    // The client appends cup2key to whatever query the service URL already has, so look for it
+    // among all the pairs (the last one wins) instead of requiring it to be the first.
     let parsed_uri = Url::parse(&format!("https://example.com{uri}")).unwrap();
-    let mut query_pairs = parsed_uri.query_pairs();
-
-    let (cup2key_key, cup2key_val) = query_pairs.next().unwrap();
-    assert_eq!(cup2key_key, "cup2key");
+    let (_, cup2key_val) = parsed_uri
+        .query_pairs()
+        .filter(|(key, _)| key == "cup2key")
+        .last()?;
 
     let (public_key_id_str, _nonce_str) = cup2key_val.split_once(':').unwrap();
     let public_key_id: PublicKeyId = public_key_id_str.parse().unwrap();
